@@ -851,6 +851,8 @@ pub trait TyDyn {
     fn is_share_container(&self) -> bool;
     /// Ok(Ok(value)) decoded, Ok(Err(msg)) rejected, Err(panic)
     fn decode<'a>(&'a self, c: Codec, b: &[u8]) -> Result<Result<Box<dyn ValDyn + 'a>, String>, String>;
+    /// decode from a scripted document of the probing serde format: Ok((decoded, answers asked for)), Err(panic)
+    fn probe(&self, script: &[crate::probe::Ans], hr: bool) -> Result<(bool, usize), String>;
 }
 
 pub struct Entry<T, X> {
@@ -934,6 +936,9 @@ impl<T: Consume<X>, X> TyDyn for Entry<T, X> {
     }
     fn decode<'a>(&'a self, c: Codec, b: &[u8]) -> Result<Result<Box<dyn ValDyn + 'a>, String>, String> {
         guard(|| T::dec(c, b)).map(|r| r.map(|v| Box::new(Val { e: self, v }) as Box<dyn ValDyn + 'a>))
+    }
+    fn probe(&self, script: &[crate::probe::Ans], hr: bool) -> Result<(bool, usize), String> {
+        guard(|| crate::probe::run_counted::<T>(script, hr))
     }
 }
 
